@@ -66,7 +66,28 @@ Definition bump (k : Z) (e : event) : event :=
   | _ => e
   end.
 Definition segment := (Z * event)%type.
-Definition expand_seg (sg : segment) : list event :=
-  map (fun k => bump (Z.of_nat k) (snd sg)) (seq 0 (Z.to_nat (fst sg))).
+(* the expansion steps from one call to the next (one addition and one comparison per
+   field; [bump] is what the k-th step has reached, C19c_segment_kth_call) *)
+Definition wrap_add (x d m : Z) : Z := let y := x + d in if y <? m then y else y - m.
+Definition next_call (e : event) : event :=
+  match e with
+  | InRTP ts ss seq rtpts hdr pay => InRTP ts ss (wrap_add seq 1 65536) (wrap_add rtpts 3000 4294967296) hdr pay
+  | OutRTP ts ss seq hdr pay => OutRTP ts ss (wrap_add seq 1 65536) hdr pay
+  | _ => e
+  end.
+Fixpoint calls (n : nat) (e : event) : list event :=
+  match n with
+  | O => []
+  | S k => e :: calls k (next_call e)
+  end.
+Definition expand_seg (sg : segment) : list event := calls (Z.to_nat (fst sg)) (snd sg).
 Definition expand_thread (t : list segment) : list event := flat_map expand_seg t.
 Definition expand_threads (ts : list (list segment)) : list (list event) := map expand_thread ts.
+
+(* sequence number and RTP timestamp of an RTP event are uint16 / uint32 *)
+Definition rtp_fields_in_range (e : event) : Prop :=
+  match e with
+  | InRTP _ _ seq rtpts _ _ => 0 <= seq < 65536 /\ 0 <= rtpts < 4294967296
+  | OutRTP _ _ seq _ _ => 0 <= seq < 65536
+  | _ => True
+  end.
